@@ -54,6 +54,7 @@ def build(prog, after_step=None):
     mod = Model()
     mod.MaxTime = prog.get('maxtime', 5)
     objs = {'model': mod}
+    pending = []
     for i_step, st in enumerate(prog['steps']):
         if after_step is not None and i_step > 0:
             after_step(i_step - 1)
@@ -71,11 +72,20 @@ def build(prog, after_step=None):
             kw = dict(st.get('kw', {}))
             for key in list(kw):
                 v = kw[key]
-                if isinstance(v, dict) and 'ref' in v:
+                if isinstance(v, dict) and 'ref' in v and v.get('late_ok') and v['ref'] not in objs:
+                    # the referenced object does not exist yet: create without it and attach it through
+                    # the attribute as soon as it exists (CentralBank.Treasury, as gl_book's PC builder does)
+                    pending.append((st['id'], v['attr'], v['ref']))
+                    del kw[key]
+                elif isinstance(v, dict) and 'ref' in v:
                     kw[key] = objs[v['ref']]
                 elif isinstance(v, dict) and 'refs' in v:
                     kw[key] = [objs[r] for r in v['refs']]
             objs[st['id']] = _cls(st['cls'])(objs[st['country']], st['code'], **kw)
+            for (sid_, attr_, ref_) in list(pending):
+                if ref_ in objs and sid_ in objs:
+                    setattr(objs[sid_], attr_, objs[ref_])
+                    pending.remove((sid_, attr_, ref_))
         elif k == 'op':
             run_op(mod, objs, st)
         else:
@@ -385,7 +395,7 @@ def _fmt(x, nd=4):
 def step_deps(st):
     deps = []
     for v in st.get('kw', {}).values():
-        if isinstance(v, dict) and 'ref' in v:
+        if isinstance(v, dict) and 'ref' in v and not v.get('late_ok'):
             deps.append(v['ref'])
         elif isinstance(v, dict) and 'refs' in v:
             deps.extend(v['refs'])
@@ -456,6 +466,10 @@ class ProgGen(object):
                 if gold and ext:
                     add('CB', 'GoldStandardCentralBank', nm['CB'], treasury={'ref': govid},
                         initial_gold_stock=_fmt(rng.uniform(0, 50), 1))
+                elif rng.random() < 0.5:
+                    # either order of declaration: passed to the constructor when the treasury already exists, attached
+                    # through the Treasury attribute (as gl_book's PC builder does) when the central bank comes first
+                    add('CB', 'CentralBank', nm['CB'], treasury={'ref': govid, 'late_ok': True, 'attr': 'Treasury'})
                 else:
                     add('CB', 'CentralBank', nm['CB'], treasury={'ref': govid})
             info['gov_kind'] = gov
